@@ -27,7 +27,7 @@ MODULES = ["TLX.Props.C02Dissect"]
 THEOREMS = ["TLX.Props.C02Dissect." + t for t in (
     "dissect_encode_long", "dissect_encode_short", "dissect_encode_retry", "dissect_encode_version_negotiation",
     "zero_padding_dropped", "scid_len_limit", "dissect_coalesced_loop", "dissect_coalesced", "dissect_progress",
-    "dissect_loop_total", "dissect_total", "aad_is_header_long", "aad_is_header_short", "aad_is_header")]
+    "dissect_loop_total", "dissect_total", "no_invented_data", "aad_is_header_long", "aad_is_header_short", "aad_is_header")]
 
 KEY_NAMES = ["server_initial_hp", "client_initial_hp", "server_handshake_hp", "client_handshake_hp", "client_early_hp",
              "server_application_hp", "client_application_hp"]
